@@ -1,19 +1,19 @@
 SPECIFICATION MCSpec
 CONSTANTS
-  MaxRecs = 5
+  MaxRecs = 3
   MaxBatch = 1
-  MaxOps = 8
+  MaxOps = 6
   MaxEpoch = 1
   CapSet = {1, 2}
-  KeySet = {"nil", "a", "b"}
-  AgeSet = {0}
-  MsgsSet = {0}
-  BytesSet = {0}
-  CompactSet = {TRUE}
-  LagSet = {0}
-  BigSet = {FALSE}
+  KeySet = {"a"}
+  AgeSet = {0, 2}
+  MsgsSet = {0, 2}
+  BytesSet = {0, 2}
+  CompactSet = {FALSE}
+  LagSet = {0, 3}
+  BigSet = {FALSE, TRUE}
   MaxCleans = 2
-  MaxTicks = 0
+  MaxTicks = 1
   UseWindow = TRUE
   UseReopen = FALSE
   UseEpochs = FALSE
